@@ -169,6 +169,58 @@ theorem all_parsing_precedes_the_loop :
     ((formatProject.dropWhile (· ≠ .formatLoop)).all fun p => p != .parseCrate && p != .resolveModules) = true := by
   decide
 
+/-- what one test of `should_skip_module` asks of a file (a path input is never standard input) -/
+def skipCondHolds (cfg : Cfg) (mainPath : Nat) (f : File) : SkipCond → Bool
+  | .skipAttr => f.skipAttr
+  | .skipChildrenNotMain => cfg.skipChildren && f.path != mainPath
+  | .ignored => f.ignored
+  | .generated => f.generated
+
+/-- The filter of the model is the filter of the source: `shouldSkip` is the disjunction of the tests the
+translator finds in `should_skip_module` (inner `#![rustfmt::skip]`; `skip_children` and not the main file; on
+the `ignore` list; a generated file under `format_generated_files = false`). -/
+theorem should_skip_matches_source (cfg : Cfg) (mainPath : Nat) (f : File) :
+    shouldSkip cfg mainPath f = shouldSkipConds.any (skipCondHolds cfg mainPath f) := by
+  simp [shouldSkip, shouldSkipConds, skipCondHolds, Bool.or_assoc]
+
+/-- **A file that is filtered out is never written** (the generated order): every file-system call of a run is
+on the path of a file of the tree that passes the filter — not on the `ignore` list, no `#![rustfmt::skip]`, not
+a child under `skip_children`, not a generated file. -/
+theorem skipped_file_never_written (ops : FileOps) (kind : EmitterKind) (cfg : Cfg) (root : Tree) :
+    ∀ x ∈ (runProject formatProject formatFile ops kind cfg root).log,
+      ∃ f ∈ allFilesT root, x.path = f.path ∧ shouldSkip cfg root.file.path f = false := by
+  intro x hx
+  simp only [runProject, formatProject, exec_cons] at hx
+  cases hg : cfg.ignoreGlobOk with
+  | false => rw [step_new_bad hg] at hx; cases hx
+  | true =>
+    rw [step_new_ok hg] at hx; simp only at hx
+    cases hi : (cfg.skipChildren && root.file.ignored) with
+    | true => rw [step_ign_ret rfl hi] at hx; cases hx
+    | false =>
+      rw [step_ign_next rfl hi] at hx; simp only at hx
+      by_cases hp : root.file.parse = .ok
+      · rw [step_parse_ok rfl hp] at hx; simp only at hx
+        cases hv : visitCrate (!cfg.skipChildren) root with
+        | none => rw [step_res_err rfl hv] at hx; cases hx
+        | some files =>
+          rw [step_res_ok rfl hv] at hx; simp only at hx
+          rw [step_filter] at hx; simp only at hx
+          have hl := formatLoop_log formatFile ops kind file_steps_safe
+            (files.filter fun f => !shouldSkip cfg root.file.path f) {} []
+          cases hfl : formatLoop formatFile ops kind (files.filter fun f => !shouldSkip cfg root.file.path f) {} [] with
+          | mk o log =>
+            rw [hfl] at hl
+            have hmem : x ∈ log := by
+              cases o with
+              | none => rw [step_loop_err hfl] at hx; exact hx
+              | some rep => rw [step_loop_ok hfl] at hx; simpa [exec] using hx
+            rcases hl x hmem with h1 | ⟨f, hf, hw⟩
+            · cases h1
+            · obtain ⟨hf1, hf2⟩ := List.mem_filter.1 hf
+              exact ⟨f, visitCrate_mem _ _ _ hv f hf1, hw.1, by simpa using hf2⟩
+      · rw [step_parse_fault rfl hp] at hx; cases hx
+
 /-! ## Configuration faults -/
 
 /-- The generated order of `format_input_inner` is the one `RF.Session.formatInput` hard-wires: running the
@@ -718,6 +770,19 @@ theorem fault_implies_no_write (pi : Nat → FileParse) (ops : FileOps) (kind : 
     (annotateRoot_faulty genParse genMods tables_safe pi cfg root hf)
   rw [(annotateRoot_file genParse genMods pi cfg root).1] at h
   exact h
+
+/-- **An ignored file is never written**, whatever its diagnostics did to the session: every file-system call of
+a run is on the path of a file that is not on the `ignore` list, has no `#![rustfmt::skip]` and is not a
+generated file. -/
+theorem ignored_file_never_written (pi : Nat → FileParse) (ops : FileOps) (kind : EmitterKind) (cfg : Cfg) (root : Tree) :
+    ∀ x ∈ (runProjectE genParse genMods pi formatProject formatFile ops kind cfg root).log,
+      ∃ f ∈ allFilesT (annotateRoot genParse genMods pi cfg root),
+        x.path = f.path ∧ f.ignored = false ∧ f.skipAttr = false ∧ f.generated = false := by
+  intro x hx
+  obtain ⟨f, hf, hp, hs⟩ := skipped_file_never_written ops kind cfg (annotateRoot genParse genMods pi cfg root) x hx
+  refine ⟨f, hf, hp, ?_⟩
+  simp only [shouldSkip, Bool.or_eq_false_iff] at hs
+  exact ⟨hs.1.2, hs.1.1.1, hs.2⟩
 
 /-- … and the process exits with 1 on any command line that contains that root. -/
 theorem fault_implies_exit_one_diags (pi : Nat → FileParse) (ops : FileOps) (kind : EmitterKind) (g : Config Cfg)
